@@ -26,6 +26,7 @@ type Scn struct {
 type Witness struct {
 	Scenario string   `json:"scenario"`
 	Choices  []int    `json:"choices"`
+	HighFirst bool    `json:"high_first"`
 	MapDesc  bool     `json:"map_desc"`
 	Cost     int      `json:"deviations"`
 	Trace    []string `json:"trace"`
@@ -43,6 +44,21 @@ type Opts struct {
 func Run(c *vlib.Ctx, scns []*Scn, o Opts) {
 	if o.Shards == 0 {
 		o.Shards = 16
+	}
+	if only := os.Getenv("VERIF_ONLY"); only != "" {
+		var keep []*Scn
+		for _, s := range scns {
+			if strings.Contains(s.Name, only) {
+				keep = append(keep, s)
+			}
+		}
+		scns = keep
+		c.NotExhaustive("VERIF_ONLY filter active")
+	}
+	if b := os.Getenv("VERIF_BOUND"); b != "" {
+		for _, s := range scns {
+			fmt.Sscanf(b, "%d", &s.Bound)
+		}
 	}
 	byName := map[string]*Scn{}
 	for _, s := range scns {
@@ -152,7 +168,7 @@ func Run(c *vlib.Ctx, scns []*Scn, o Opts) {
 				continue
 			}
 			c.Violate(f.Clause, s.Family, f.Disc, fmt.Sprintf("scenario %s, %d deviations, choices %v\n%s\ntrace: %s", f.Scenario, f.Cost, f.Choices, f.Detail, strings.Join(f.Trace, "; ")),
-				Witness{Scenario: f.Scenario, Choices: f.Choices, MapDesc: f.MapDesc, Cost: f.Cost, Trace: f.Trace})
+				Witness{Scenario: f.Scenario, Choices: f.Choices, HighFirst: s.HighFirst, MapDesc: f.MapDesc, Cost: f.Cost, Trace: f.Trace})
 		}
 	}
 }
